@@ -1,6 +1,9 @@
-\* exhaustive (quick): L = histories of <= 2 cycles x 0..2 burn steps, all restart points, coupling off / on with cap 0..2 and
-\* every exempt-cycle pattern;  D = all stacks of <= 2 interfaces x 16 flag combinations x deferral cycle 0..2
-CONSTANTS MaxCyc = 2  MaxBurn = 2  MaxCap = 2  MaxStack = 2  MaxLevel = 400  Families = {"L", "D"}  EnvD = TRUE
+\* exhaustive (quick): L = histories of <= 2 cycles x 0..2 burn steps, all restart points (in place at entry or set by a BOL hook),
+\* coupling off / on with cap 0..2 and every exempt-cycle pattern, free halt answers / convergence reports / return values.
+\* The D family (all stacks of <= 2 interfaces x 16 flag combinations x deferral cycle 0..2, no environment choice) is checked
+\* exhaustively by Operator_emit.cfg in the quick tier: without environment choices its state graph is the same with or without
+\* the log in the state.  The thorough config explores D with a halting + coupled first interface and stacks of 3.
+CONSTANTS MaxCyc = 2  MaxBurn = 2  MaxCap = 2  MaxStack = 2  MaxLevel = 400  Families = {"L"}  EnvD = FALSE
 CONSTANT Configs <- McConfigs
 INIT Init
 NEXT Next
